@@ -1017,7 +1017,7 @@ int32 matrixSslNewHelloExtension(tlsExtension_t **extension, void *userPoolPtr)
     return PS_SUCCESS;
 }
 
-void psCopyHelloExtension(tlsExtension_t *destination,
+int32_t psCopyHelloExtension(tlsExtension_t *destination,
         const tlsExtension_t *source)
 {
     const tlsExtension_t *src;
@@ -1034,40 +1034,63 @@ void psCopyHelloExtension(tlsExtension_t *destination,
         dst->pool = src->pool;
         dst->extType = src->extType;
         dst->extLen = src->extLen;
+        dst->next = NULL;
         dst->extData = psMalloc(src->pool, src->extLen);
+        if (dst->extData == NULL)
+        {
+            /* The copy made so far is a well-formed (shorter) list that
+               the caller releases with matrixSslDeleteHelloExtension. */
+            return PS_MEM_FAIL;
+        }
         Memcpy(dst->extData, src->extData, src->extLen);
         if (src->next)
         {
             dst->next = psMalloc(src->pool, sizeof(*dst->next));
+            if (dst->next == NULL)
+            {
+                return PS_MEM_FAIL;
+            }
             dst = dst->next;
             src = src->next;
         }
         else
         {
-            dst->next = NULL;
             break;
         }
     }
+    return PS_SUCCESS;
 }
 
 /*
   Make a deep copy of the extension struct for re-sending
   during renegotiations and TLS 1.3 HelloRetryRequest responses.
 */
-void psAddUserExtToSession(ssl_t *ssl,
+int32_t psAddUserExtToSession(ssl_t *ssl,
         const tlsExtension_t *ext)
 {
+    int32_t rc;
+
     if (ext == NULL)
     {
         ssl->userExt = NULL;
-        return;
+        return PS_SUCCESS;
     }
     if (ssl->userExt == ext)
     {
-        return;
+        return PS_SUCCESS;
     }
     ssl->userExt = psMalloc(ssl->hsPool, sizeof(tlsExtension_t));
-    psCopyHelloExtension(ssl->userExt, ext);
+    if (ssl->userExt == NULL)
+    {
+        return PS_MEM_FAIL;
+    }
+    rc = psCopyHelloExtension(ssl->userExt, ext);
+    if (rc < 0)
+    {
+        matrixSslDeleteHelloExtension(ssl->userExt);
+        ssl->userExt = NULL;
+    }
+    return rc;
 }
 
 /******************************************************************************/
